@@ -5,7 +5,7 @@ import numpy as np
 
 from simkit import oracle
 from simkit.errors import HarnessError, InjectedCrash
-from simkit.sim import Sim, draw_sim_config, reset_process_state
+from simkit.sim import Sim, draw_sim_config, lockstep_config, park_config, park_profile_config, reset_process_state
 from simkit.util import tb
 
 PROPERTY = "C26"
@@ -14,7 +14,8 @@ BUDGET = {"quick": (480, 150), "thorough": (16000, 1500)}
 RULE = ("seeded crystal (cubic Si / Cu / Fe / NaCl, hexagonal Mg, orthorhombic Mg and a two-atom orthorhombic cell, optional thermal "
         "sigma), g_max, sg_max, energy, small-angle orientation (rotate about x / y) and a thickness list that contains 0. Subjects: "
         "eager calculate_diffraction_patterns; the lazy one computed by SimScheduler; calculate_scattering_matrix(z) (matrix "
-        "exponential). Oracles: intensities sum to 1 at every thickness; zero thickness is the direct beam only; lazy = eager; "
+        "exponential); half of the runs also compute a second thickness series of the same length together with the first in one graph "
+        "(profiling multi-worker schedule, then one task parked at a shared store). Oracles: intensities sum to 1 at every thickness; zero thickness is the direct beam only; lazy = eager; "
         "|S(z)[:, 000]|^2 = the eigen-decomposition intensities at z; the caller's structure-factor block is not modified. "
         "distinct = (scenario hash, schedule hash); non-trivial = >= 2 beams and a non-zero thickness")
 ASSUMPTIONS = ["sum of intensities compared to 1 within 1e-3 (float64) / 3e-3 (float32) -- the formulation conserves flux, the plain sum only "
@@ -62,7 +63,11 @@ def draw_scenario(ch):
     thick = [0.0] + [ch.pick([5.0, 20.0, 50.0, 123.4, 300.0], "thickness") for _ in range(n - 1)]
     if ch.bool(0.3, "zero-not-first"):
         thick = thick[1:] + [0.0]
-    return {"crystal": ch.pick(CRYSTALS, "crystal"), "g_max": ch.pick([2.0, 2.5, 3.0, 3.5], "g_max"), "sg_max": ch.pick([0.05, 0.1, 0.2], "sg_max"),
+    # a second thickness list of the same length and other values: both series are also computed together in one graph
+    thick2 = [ch.pick([0.0, 7.0, 33.0, 80.0, 170.0, 240.0], "thickness-2") for _ in range(n)] if ch.bool(0.5, "joint") else None
+    if thick2 == thick:
+        thick2 = None
+    return {"thicknesses2": thick2, "crystal": ch.pick(CRYSTALS, "crystal"), "g_max": ch.pick([2.0, 2.5, 3.0, 3.5], "g_max"), "sg_max": ch.pick([0.05, 0.1, 0.2], "sg_max"),
             "energy": ch.pick([80e3, 200e3, 300e3], "energy"), "rot": [ch.pick([0.0, 0.01, 0.03, -0.02], "rx"), ch.pick([0.0, 0.02, -0.01], "ry")],
             "thermal": ch.pick([0.0, 0.0, 0.08], "thermal"), "thicknesses": thick,
             "precision": "float64" if ch.bool(0.7, "float64") else "float32", "z_index": ch.range(0, n - 1, "z-index")}
@@ -160,6 +165,39 @@ def run_one(run):
             if la.shape != ea.shape or not np.allclose(la, ea, rtol=0, atol=1e-9 if f64 else 1e-5):
                 run.violate("lazy-equals-eager", sig(sc, "values", "lazy"),
                             f"lazy differs from eager by {np.abs(la - ea).max() if la.shape == ea.shape else 'shape'}")
+    # ---- two thickness series of the same crystal computed together in ONE graph (profiling schedule, then one task parked) ----------
+    if sc["thicknesses2"] is not None and ea is not None:
+        import dask
+
+        t2 = sc["thicknesses2"]
+        e2 = guard(lambda: make_bloch(sc)[0].calculate_diffraction_patterns(t2, lazy=False), "eager")
+        if e2 is not None:
+            e2a = oracle.to_numpy(e2.array)
+            cands = 0
+            for step in range(3):
+                cfg = (park_profile_config(ch) if step == 0 else lockstep_config(ch) if step == 2 else
+                       (park_config(ch, cands) if cands else draw_sim_config(ch, force_threads=True, write_preempt=True)))
+                simj = run.add_sim(Sim(ch, cfg))
+
+                def joint_run():
+                    b3, _ = make_bloch(sc)
+                    with simj:
+                        la_ = b3.calculate_diffraction_patterns(thick, lazy=True)
+                        lb_ = b3.calculate_diffraction_patterns(t2, lazy=True)
+                        return dask.compute(la_.array, lb_.array, optimize_graph=simj.optimize_graph)
+
+                res = guard(joint_run, "lazy-joint")
+                if res is None:
+                    break
+                for name, got, want in (("first", res[0], ea), ("second", res[1], e2a)):
+                    got = oracle.to_numpy(got)
+                    if got.shape != want.shape or not np.allclose(got, want, rtol=0, atol=1e-9 if f64 else 1e-5):
+                        run.violate("lazy-equals-eager", sig(sc, "values", "lazy-joint"),
+                                    f"two thickness series ({thick} and {t2}) computed in one graph: the {name} differs from its eager result by "
+                                    f"{np.abs(got - want).max() if got.shape == want.shape else 'shape'}")
+                        break
+                run.note("reach_joint_series")
+                cands = simj.sched.stats.park_candidates
     # ---- matrix-exponential path ----------------------------------------------------------------------------------------------------
     z = thick[sc["z_index"]]
     sim2 = run.add_sim(Sim(ch, draw_sim_config(ch, light=True)))
